@@ -83,6 +83,9 @@ STMTS = [
     ("select", ["select case ({e})", "case (1)", "  r = {f}", "end select"], set()),
     ("associate", ["associate (aa => {e})", "  r = aa + {f}", "end associate"], set()),
     ("associate-shadow", ["associate (ufn2 => larr)", "  r = ufn2(1) + {e}", "end associate"], set()),
+    # the selector is an expression: an element of its value is no call
+    ("associate-expr", ["associate (av => larr + marr, aw => 2*larr)", "  r = av(1) + aw(2) + {e}", "end associate"], set()),
+    ("associate-expr-nested", ["associate (av => larr + {e})", "  associate (ax => av)", "    r = ax(2) + {f}", "  end associate", "end associate"], set()),
     ("associate-nested", ["associate (aa => {e})", "  associate (bb => aa)", "    r = bb", "  end associate", "  r = {f}", "end associate"], set()),
     ("associate-upper", ["associate (AA => {e}, Q => larr)", "  r = aa + q(2) + {f}", "end associate"], set()),
     ("associate-shadow-upper", ["associate (UFN2 => larr)", "  r = ufn2(1) + {e}", "end associate"], set()),
